@@ -11075,11 +11075,7 @@ def FillUnitDatabaseWithPosc(
         f_unit_to_base,
         default_category="status",
     )
-    f_unit_to_base = MakeCustomaryToBase(0.0, 100.0, 1.0, 0.0)
-    f_base_to_unit = MakeBaseToCustomary(0.0, 100.0, 1.0, 0.0)
-    db.AddUnit(
-        "fraction", "fraction", "<fraction>", f_base_to_unit, f_unit_to_base, default_category=None
-    )
+    db.AddUnitBase("fraction", "fraction", "<fraction>")
     f_unit_to_base = MakeCustomaryToBase(0.0, 0.000001, 1.0, 0.0)
     f_base_to_unit = MakeBaseToCustomary(0.0, 0.000001, 1.0, 0.0)
     db.AddUnit(
